@@ -2,7 +2,7 @@ import Heathcliff.Proofs.C12A
 import Heathcliff.Proofs.C12D
 import Heathcliff.Proofs.C12E
 import Heathcliff.Proofs.GenDwt
-import Heathcliff.Proofs.GenCkks
+import Heathcliff.Proofs.GenCkks3
 
 /- C12 — CKKS encoding is the rounded scaled canonical embedding on every path.
    Property theorems only (proofs are the helper lemmas of Heathcliff/Proofs/C12A..E).  The model is
@@ -232,8 +232,31 @@ theorem gen_f64_polynomial_refuses : type_of% @HC.gk_f64_polynomial_refuses := @
 theorem gen_row_layout : type_of% @HC.gk_row_spec := @HC.gk_row_spec
 theorem gen_rows_layout : type_of% @HC.gk_rows_spec := @HC.gk_rows_spec
 
-/-- FULL statement (NOT proved; the pieces above are its ingredients, the assembly over the generated nested loops and the multi-word
-    path's `while` loop were left out for time): for a valid CKKS level with well-formed moduli, N = 2·slots coefficients whose scan bit
+/-- DISPATCH EQUALITY (definitional): the generated `encode_internal_c64_array` / `encode_internal_f64_polynomial` are guards, the scan over ALL
+    entries, the refusal, resize (+ zero-fill, before the scan, for the polynomial function), then `gkStageRaw`: rows `gkRow64` if bits ≤ 64, else
+    `gkRow128` if bits ≤ 128, else `gkRowBig` — the row bodies being the generated text.  A swap of the thresholds, a different comparison or a
+    different row body breaks these `rfl`s. -/
+theorem gen_c64_array_dispatch : type_of% @HC.gk_c64_array_unfold := @HC.gk_c64_array_unfold
+theorem gen_f64_polynomial_dispatch : type_of% @HC.gk_f64_polynomial_unfold := @HC.gk_f64_polynomial_unfold
+/-- generated rows: row i of the buffer receives c_i mod q_j for every j (both sign branches), the other rows are untouched -/
+theorem gen_row64 : type_of% @HC.gkRow64_spec := @HC.gkRow64_spec
+theorem gen_row128 : type_of% @HC.gkRow128_spec := @HC.gkRow128_spec
+/-- INTEGER STAGE, ≤ 64-bit and ≤ 128-bit paths (`_partial`: the multi-word path is not covered; full statement below): the generated
+    `encode_internal_c64_array` computes, for every coefficient, the MODEL's `Ckks.coeffToRns base (mb + 1) c_i` — the model's dispatch at the
+    bit count the scan over all coefficients gives — laid out at i + j·N (= c_i mod q_j, negatives included), and hands that buffer to `ntt_p`.
+    Hypotheses: `b.WF` (what the context construction establishes), N = 2·slots, N·k < 2^64 (buffer size is a usize), `cb` / `rc` have N
+    entries (the FFT buffer), |c_i| ≤ 2^cb[i] (the meaning of `ceil(log2(max(|x_i|,1)))` for c_i = round(x_i)), scan result mb, mb + 1 below the
+    total bit count (else refusal: `gen_c64_array_refuses`) and ≤ 128. -/
+theorem gen_c64_array_integer_stage_partial : type_of% @HC.gk_c64_array_integer_stage_partial := @HC.gk_c64_array_integer_stage_partial
+/-- the same for `encode_internal_f64_polynomial` (nvalues ≤ N coefficients; every other position of the zero-filled buffer is 0) -/
+theorem gen_f64_polynomial_integer_stage_partial : type_of% @HC.gk_f64_polynomial_integer_stage_partial := @HC.gk_f64_polynomial_integer_stage_partial
+/-- `encode_internal_i64_single` as generated, for EVERY i64 (i64::MIN, negative multiples of a prime included): refuses exactly when
+    bits(|v|) + 2 ≥ total bits, otherwise component j is filled with the model's `i64Residues` entry = v mod q_j -/
+theorem gen_i64_single : type_of% @HC.gk_i64_single_spec := @HC.gk_i64_single_spec
+theorem gen_chunks_layout : type_of% @HC.gk_chunks_spec := @HC.gk_chunks_spec
+
+/-- FULL statement (NOT proved; `gen_c64_array_integer_stage_partial` covers bit counts ≤ 128; missing: the multi-word path — its `while` limb loop and the tie of the
+    `decompose` parameter to `RNSBase.decompose`): for a valid CKKS level with well-formed moduli, N = 2·slots coefficients whose scan bit
     count is below the total bit count, the generated `encode_internal_c64_array` hands `ntt_p` a buffer with `c_i mod q_j` at `i + j·N`. -/
 def GenC64ArrayStatement : Prop :=
   ∀ (moduli : List Modulus) (cc slots nvalues total_bits : Nat) (cb : List Nat) (rc : List Int)
@@ -254,6 +277,8 @@ example : GenK.fToU64 (GenK.fmod64 (GenK.fabs (-(2^64 + 5)))) = 5 ∧ GenK.fToU6
 example : c12_res (-(2^64 + 5)) 7 = 0 ∧ c12_res (-(2^64 + 6)) 7 = 6 := by decide
 /-- a magnitude between two primes of a non-monotone chain (101, 97): 100 is reduced mod 97 but not mod 101; −97 gives residue 0 -/
 example : c12_res 100 101 = 100 ∧ c12_res 100 97 = 3 ∧ c12_res (-97) 97 = 0 := by decide
+/-- i64::MIN and a negative multiple of a prime satisfy the hypotheses of `gen_i64_single` -/
+example : (-2^63 : Int) ≤ -2^63 ∧ (-2^63 : Int) < 2^63 ∧ c12_res (-2^63) 97 = 18 ∧ c12_res (-3 * 97) 97 = 0 := by decide
 /-- the scan: the dominant coefficient sits in the second half; a scan of the first half would give 3, not 70 -/
 example : GenK.maxAll [3, 1, 70, 2] = .ok 70 ∧ GenK.maxPrefix [3, 1, 70, 2] 2 = .ok 3 := by decide
 example : c12_res (-5) 7 = 2 := by decide
